@@ -107,8 +107,11 @@ def encAux : Option Header → Bytes
   | some h => le 4 (encHeader h).length ++ encHeader h
 
 /-- `read_aux`: `l_aux` (non-negative `i32`); when positive the header is parsed from
-`reader.take(l_aux)`, and whatever the header parser did not consume of those `l_aux` bytes
-is NOT skipped (the `Take` is simply dropped) -/
+`reader.take(l_aux)` (so the names `Take` inside it can be cut short by this limit as well as by the
+end of the stream: `decNames` on `r1.take l`), and then `io::copy(&mut aux_reader, &mut io::sink())?`
+reads and drops whatever the header parser did not consume of those `l_aux` bytes (/repo `fix:`
+8288cb5; before it the `Take` was simply dropped and `n_ref` was read from the leftover bytes). A
+stream that ends before `l_aux` bytes is not an error of the drain itself. -/
 def decAux : Dec (Option Header) := fun r =>
   match i32nn r with
   | .error e => .error e
@@ -116,7 +119,7 @@ def decAux : Dec (Option Header) := fun r =>
     if l = 0 then .ok (none, r1) else
     match decHeader (r1.take l) with
     | .error e => .error e
-    | .ok (h, a) => .ok (some h, r1.drop ((r1.take l).length - a.length))
+    | .ok (h, _) => .ok (some h, r1.drop l)
 
 /-- `u8::try_from(read_i32_le)` for `min_shift` and `depth` -/
 def decU8 : Dec Nat := fun r =>
